@@ -2,6 +2,7 @@ package props
 
 import (
 	"fmt"
+	"github.com/comdex-official/comdex/app/wasm/bindings"
 	esmtypes "github.com/comdex-official/comdex/x/esm/types"
 	"math/big"
 	"math/rand"
@@ -47,6 +48,7 @@ type cdpCfg struct {
 	liquidateMsg bool
 	limitBids    bool // limit-bid deposit / withdraw / cancel with hostile amount and denom
 	reserve      bool // app reserve funds get topped up now and then
+	govChanges   bool // governance changes fees / minimum ratio / penalty of products while vaults are open
 	unsafeBias   bool // liquidate messages prefer vaults that are currently unsafe
 	gen2Only     bool // only products of the generation-2 app are used
 	maxGap       time.Duration
@@ -333,6 +335,8 @@ func (r *cdpRunner) step() {
 		r.reserveOp()
 	case x < 926 && r.cfg.reserve && r.cfg.liquidateMsg:
 		r.externalLiqOp()
+	case x >= 926 && x < 932 && r.cfg.govChanges:
+		r.govProductChange()
 	default:
 		gap := time.Duration(1+r.rnd.Intn(20)) * time.Second
 		switch r.rnd.Intn(12) {
@@ -429,6 +433,58 @@ func (r *cdpRunner) esmPhase(app uint64) {
 	for i := 0; i < 30 && !r.panicked; i++ {
 		r.step()
 	}
+}
+
+// govProductChange: a governance contract message changes the fees, the minimum collateralization ratio or the
+// liquidation penalty of a product while vaults are open (debt floor and ceiling are left alone: the statements that
+// name them do not quantify over parameter changes). The fixture's copy of the parameters is refreshed.
+func (r *cdpRunner) govProductChange() {
+	u := r.u
+	c := u.c
+	var prods []*uProduct
+	for _, p := range u.products {
+		if !p.P.IsStableMintVault {
+			prods = append(prods, p)
+		}
+	}
+	if len(prods) == 0 {
+		return
+	}
+	p := prods[r.rnd.Intn(len(prods))]
+	cur, found := c.App.AssetKeeper.GetPairsVault(c.Ctx(), p.ID)
+	if !found {
+		return
+	}
+	m := bindings.MsgUpdatePairsVault{AppID: p.App, ExtPairID: p.ID, StabilityFee: cur.StabilityFee, ClosingFee: cur.ClosingFee, LiquidationPenalty: cur.LiquidationPenalty, DrawDownFee: cur.DrawDownFee,
+		IsVaultActive: true, MinCr: cur.MinCr, DebtCeiling: cur.DebtCeiling, DebtFloor: cur.DebtFloor, MinUsdValueLeft: cur.MinUsdValueLeft}
+	what := ""
+	switch r.rnd.Intn(5) {
+	case 0:
+		m.StabilityFee = dec([]string{"0", "0.01", "0.1", "0.25", "0.5"}[r.rnd.Intn(5)])
+		what = "stability fee " + m.StabilityFee.String()
+	case 1:
+		m.ClosingFee = dec([]string{"0", "0.005", "0.01", "0.02"}[r.rnd.Intn(4)])
+		what = "closing fee " + m.ClosingFee.String()
+	case 2:
+		m.DrawDownFee = dec([]string{"0", "0.005", "0.01", "0.05"}[r.rnd.Intn(4)])
+		what = "draw-down fee " + m.DrawDownFee.String()
+	case 3:
+		m.MinCr = dec([]string{"1.2", "1.5", "1.7", "2.3"}[r.rnd.Intn(4)])
+		what = "min cr " + m.MinCr.String()
+	default:
+		m.LiquidationPenalty = dec([]string{"0.05", "0.12", "0.15"}[r.rnd.Intn(3)])
+		what = "liquidation penalty " + m.LiquidationPenalty.String()
+	}
+	r.env("gov-product", fmt.Sprintf("product %d (app %d): %s", p.ID, p.App, what), func() {
+		if err := c.Gov(bindings.ComdexMessages{MsgUpdatePairsVault: &m}); err == nil {
+			if nw, ok := c.App.AssetKeeper.GetPairsVault(c.Ctx(), p.ID); ok {
+				p.P.StabilityFee, p.P.ClosingFee, p.P.DrawDownFee, p.P.MinCr, p.P.LiquidationPenalty = nw.StabilityFee, nw.ClosingFee, nw.DrawDownFee, nw.MinCr, nw.LiquidationPenalty
+			}
+			r.rec.Count("gov_product_changes", 1)
+		} else {
+			r.rec.Count("gov_product_changes_rejected", 1)
+		}
+	})
 }
 
 // reserveOp: somebody tops up an app's reserve fund (the generation-2 auctions draw on it when the collateral of an
